@@ -222,3 +222,11 @@ def guards(acc, tier):
     if len(acc.outcomes) < 100:
         msgs.append('fewer than 100 distinct outcomes')
     return msgs
+
+
+def unit_test(case):
+    if case['fam'] != 'top':
+        return None
+    items = [10 * i + c for i, c in enumerate(case['seq'])]
+    spec = [['group_by', 'k_mixed', INNERS[case['inner']]]]
+    return harness.unit_test_api(spec, items, harness.model_all(spec, items))
